@@ -104,6 +104,7 @@ Proof. vm_compute. repeat split; reflexivity. Qed.
 
 (* ---------------------------------------------------------------- every lookup path, as observed *)
 From Gecs Require Import ObsFacts.
+Local Open Scope nat_scope.
 
 (** The observation the run language prints for a probe - the numbers the harness prints for the same
     operation on the real gecs, compared on every run - in closed form.  World level (contains,
